@@ -63,6 +63,10 @@ package keygen
 //@   requires forall(k, party.ID, indom(verificationShares, k) ==> verificationShares[k] != nil)
 //@   ensures[C20] result1 != nil ==> result0 == nil
 //@   ensures[C20] result1 == nil ==> result0 != nil
+// (C08) the session works on its own copy of the secret share (the rounds add to it in place): the caller's
+// configuration of the previous epoch is never modified
+//@   ensures[C08] result1 == nil ==> (typeis(result0, *round1) && fresh(result0.(*round1).privateShare) && fresh(result0.(*round1).verificationShares))
+//@   ensures[C08] old(privateShare) != nil ==> scval(old(privateShare)) == old(scval(privateShare))
 //@   loop 1: invariant fresh(verificationSharesCopy)
 //@   loop 2: invariant fresh(verificationSharesCopy)
 
